@@ -864,6 +864,18 @@ def fitting_node(g) -> dict:
     n["parameters"]["fitting_model"]["kwargs"]["degree"] = g.rng.choice([1, 2])
     if g.chance(0.3):
         n["parameters"]["fitting_model"] = f"model:PolynomialFittingModel:degree={g.rng.choice([1, 2])}"
+    r = g.rng.random()
+    if r < 0.25:
+        # the routing form: where the independent / dependent samples are read from and where the fit is stored
+        n["parameters"].pop("x_values"), n["parameters"].pop("y_values")
+        n["parameters"].update(independent_var_key=g.rng.choice(["t_values", "grid", "x"]),
+                               dependent_var_key=g.rng.choice(["res", "info.value", "y"]))
+        if g.chance(0.5):
+            n["parameters"]["context_key"] = g.rng.choice(["fit.coeffs", "k", "fit_out"])
+    elif r < 0.4:
+        n["parameters"]["context_key"] = g.rng.choice(["fit.coeffs", "k", "fit_out"])
+    elif r < 0.5:
+        n["parameters"]["y_values"] = list(n["parameters"]["x_values"])      # the same list twice (anchor / alias material)
     return n
 
 
@@ -885,9 +897,13 @@ def struct_value(rng, depth: int = 0):
 def struct_node(g) -> dict:
     """A no-op node holding a structured parameter with at least one mapping inside a list."""
     rng = g.rng
-    shape = rng.randrange(3)
+    shape = rng.randrange(4)
     inner = {k: rng.choice([1.0, 2.0, 0.5, "s", True]) for k in rng.sample(_STRUCT_KEYS, rng.randint(2, 3))}
-    if shape == 0:
+    if shape == 3:
+        # the SAME list / mapping value spelled twice inside one node's parameters (what a YAML anchor + alias shares)
+        ramp = [rng.choice([0.0, 0.5, 1.0, 2.0]) + k for k in range(rng.randint(2, 4))]
+        v = {"x_values": list(ramp), "y_values": list(ramp), "a": dict(inner), "b": [dict(inner), struct_value(rng, 2)]}
+    elif shape == 0:
         v = [inner, struct_value(rng, 1)]
     elif shape == 1:
         v = {"stages": [[inner], struct_value(rng, 2)], "opt": struct_value(rng, 1)}
@@ -1052,6 +1068,12 @@ def config_case(g, i: int, fc_share: float = 0.25, very_long: bool = False) -> d
                 blk["variables"][v] = long if isinstance(spec, list) else {"values": long}
                 if "long_sequence" not in tags:
                     tags.append("long_sequence")
+    if g.chance(0.1):
+        # a node whose `parameters:` key is present but empty (YAML null): every path must agree on what that means
+        bare = [k for k, n in enumerate(nodes) if "parameters" not in n and isinstance(n.get("processor"), str)]
+        if bare:
+            nodes[g.rng.choice(bare)]["parameters"] = None
+            tags.append("null_parameters_block")
     if very_long and g.chance(0.06):
         # an explicit sequence of a few thousand values (a measured grid): every element is identity-bearing
         for n in nodes:
